@@ -41,12 +41,14 @@ const (
 	regModuleOff = "module-disabled"
 	regAdded     = "added-to-module-pair"
 	regExternal  = "added-to-external-pair"
+	regGone      = "added-to-a-pair-whose-contract-is-gone"
 )
 
 var (
 	directOnce sync.Once
 	directBase *kit.Chain
 	externalX  common.Address // an ERC-20 owned by a contract account, registered as an external pair in the base state
+	externalY  common.Address // a second one; a case may remove its account (the state a self-destructed token contract leaves behind)
 )
 
 const nativeCoin = "c16nat" // a native coin of the receiving chain (returns from the counterparty)
@@ -58,6 +60,10 @@ func directChain() *kit.Chain {
 		prop := aggregatetypes.NewRegisterERC20Proposal("c16", "c16", externalX.Hex())
 		kit.Must(prop.ValidateBasic(), "RegisterERC20 proposal")
 		kit.Must(govHandler(c.App)(c.Ctx(), prop), "RegisterERC20")
+		externalY = c.DeployERC20("cgone", "CGONE", 18)
+		propY := aggregatetypes.NewRegisterERC20Proposal("c16y", "c16y", externalY.Hex())
+		kit.Must(propY.ValidateBasic(), "RegisterERC20 proposal")
+		kit.Must(govHandler(c.App)(c.Ctx(), propY), "RegisterERC20")
 		// native coin with supply (held by account 1)
 		mintTo(c.App, c.Ctx(), c.Accounts[1].Acc, sdk.NewCoins(sdk.NewInt64Coin(nativeCoin, 1_000_000_000)))
 		c.Commit(5 * time.Second)
@@ -128,7 +134,7 @@ func runDirect(t *rapid.T, r *rec.Recorder) {
 	amountOK = amountOK && amount.IsPositive() && amount.BigInt().BitLen() <= 200
 
 	// ---- registry state
-	reg := rapid.SampledFrom([]string{regNone, regNone, regEnabled, regEnabled, regEnabled, regPairOff, regModuleOff, regAdded, regExternal}).Draw(t, "registry")
+	reg := rapid.SampledFrom([]string{regNone, regNone, regEnabled, regEnabled, regEnabled, regPairOff, regModuleOff, regAdded, regExternal, regGone}).Draw(t, "registry")
 	evmDenom := a.EvmKeeper.GetParams(ctx).EvmDenom
 	if !denomOK || credited == evmDenom {
 		reg = regNone // nothing can be registered for it
@@ -181,6 +187,15 @@ func runDirect(t *rapid.T, r *rec.Recorder) {
 		p2, err := registerCoin(a, ctx, other)
 		kit.Must(err, "RegisterCoin other")
 		kit.Must(addCoin(a, ctx, credited, p2.GetERC20Contract()), "AddCoin")
+	case regGone:
+		// the denomination belongs to an enabled pair whose token contract destroyed itself afterwards (account and code are
+		// gone, which is all a SELFDESTRUCT leaves): the conversion cannot happen, so the vouchers must stay with the receiver
+		kit.Must(addCoin(a, ctx, credited, externalY), "AddCoin to the pair of the contract that goes away")
+		if canHold && amountOK && rapid.Bool().Draw(t, "tokensEscrowedBeforeItWentAway") {
+			mintToken(a, ctx, externalY, aggregatetypes.ModuleAddress, amount.BigInt())
+		}
+		kit.Must(a.EvmKeeper.DeleteAccount(ctx, externalY), "remove the contract account")
+		setup = append(setup, "token contract gone")
 	case regExternal:
 		kit.Must(addCoin(a, ctx, credited, externalX), "AddCoin external")
 		escrowTokens = rapid.SampledFrom([]string{"none", "short", "exact", "plenty"}).Draw(t, "escrowedTokens")
